@@ -168,6 +168,30 @@ def run(repo, rep, tier):
                       "the error variable is bound before the fallback "
                       "expression is evaluated", construct="record-order",
                       where=where)
+    # the token may be unset (start of a render function, after an inline
+    # macro call): the handler must not index the token table blindly
+    for i in hrows:
+        it = lin.item(i)
+        if isinstance(it, A.Frag) and it.tree is not None:
+            for n in ast.walk(it.tree):
+                if isinstance(n, ast.Subscript) and \
+                        src(n.value) == "__tokens":
+                    guarded = False
+                    p = n
+                    # guarded by an enclosing 'X if __token is not None else'
+                    # or 'if __token is not None:'
+                    for anc in ast.walk(it.tree):
+                        if isinstance(anc, (ast.IfExp, ast.If)) and \
+                                "is not None" in src(anc.test) and \
+                                src(n.slice) in src(anc.test) and \
+                                any(x is n for x in ast.walk(anc)):
+                            guarded = True
+                    rep.check(guarded, "R13.1", site,
+                              "the handler looks the failing position up "
+                              "only if a token is set (it is None after an "
+                              "inline macro call and at the start of a "
+                              "render function)", construct="token-guard",
+                              where=where, detail=src(n))
     rep.check(len(handler_calls) == 1 and handler_calls[0][3], "R13.1", site,
               "the configured on_error_handler is called exactly once, "
               "guarded by 'is not None'", construct="handler-call",
@@ -233,6 +257,44 @@ def run(repo, rep, tier):
                       construct="static-filter", where=vwhere,
                       detail=A.show(attrs, limit=3))
             break
+        # attributes of the fallback tag are rendered outside the Cache of
+        # the attribute dictionaries: they must not carry override filters
+        def walk_emitted(v, seen=None):
+            """walk without descending into what a Loop iterates over"""
+            seen = set() if seen is None else seen
+            if id(v) in seen:
+                return
+            seen.add(id(v))
+            yield v
+            for fld, k in v.kids():
+                if isinstance(v, (A.Loop, A.LoopVar)) and fld == "iter":
+                    continue
+                yield from walk_emitted(k, seen)
+        fattrs = [w for w in walk_emitted(fb) if isinstance(w, A.NodeV)
+                  and w.kind == "Attribute"]
+        okf = bool(fattrs) and all(
+            not list(A.flatten(a.arg("filters", (
+                "name", "expression", "quote", "eq", "space", "default",
+                "filters")) or A.Seq())) for a in fattrs)
+        reused = [w for w in A.walk(fb) if isinstance(w, A.Loop)
+                  and any(isinstance(x, A.LoopVar) and x.canon.startswith(
+                      "each(") and x.path == "" and
+                      isinstance(it_, A.LoopVar) for it_ in [None]
+                      for x in [])]
+        raw = []
+        for st in starts:
+            at = st.arg("attributes", ("name", "prefix", "suffix",
+                                       "attributes"))
+            for w in walk_emitted(at):
+                if isinstance(w, A.Alt) and isinstance(w.a, A.LoopVar):
+                    raw.append(w)
+        rep.check(okf and not raw, "R13.3", vfunc.qualname,
+                  "the fallback tag's attributes are filter-free copies "
+                  "(the element's own Attribute nodes refer to attribute "
+                  "dictionaries that are cached only inside the regular "
+                  "start tag)", construct="fallback-attr-filters",
+                  where=vwhere, detail="%d Attribute constructions, %d raw "
+                  "reuses" % (len(fattrs), len(raw)))
         # the fallback has a tag exactly when the element itself has one
         tagged = [w for w in A.walk(fb) if isinstance(w, A.Alt) and any(
             isinstance(x, A.NodeV) and x.kind == "Element"
